@@ -3,6 +3,8 @@ Require Import Parser PgModel.
 Require Lex.
 Require LexQuote LexField LexEscape PgQuote PgIdent.
 Require Import Render Printer QuotePipeline EscapePipeline.
+Require Import QuerySem SqlSem SqlFrag SqlFragP SqlSucceeds QuoteE2E.
+Require SqlQueryText Api LexWs QuoteText.
 From Coq Require Import List String Ascii NArith ZArith.
 Import ListNotations.
 
@@ -91,6 +93,126 @@ Theorem C08_escaped_spelling_adds_no_wildcard : forall (cl : Lex.classes) (x : a
   contains_char x (string_of_list_ascii (LexEscape.esc_b cl l)) = contains_char x (string_of_list_ascii l).
 Proof. exact esc_contains. Qed.
 
+
+(* ---- both clauses, from the tokens to the rows, on the model ----
+   the links above are closed into one statement with ONE quoting function on both sides: for the value w written in quotes (any
+   w without a double quote) the parser returns EQUALS(column f, literal w); the inline renderer returns a text; the PostgreSQL
+   scanner and grammar models read from that text the comparison of column f with the string constant w - exactly w, whatever it
+   contains: quotes, backslashes, percent signs, comment openers, semicolons - and that comparison is true on exactly the rows on
+   which the query is true. Premises: the field name is non-empty, has no double quote and at most 63 bytes; the literal function
+   accepts the two texts (valid UTF-8 per the oracle, no NUL: the library refuses the others, C02). *)
+Theorem C08_quoted_value_reaches_postgres_verbatim : forall (o : oracle) (o2 : oracle2) (ftok : token) (fs w : string),
+  is_term_tok ftok = true -> parse_literal o ftok = lit (VStr fs) -> contains_char """"%char w = false ->
+  name_ok fs = true -> col_ok o2 fs = true -> lit_ok o2 (sqs w) = true ->
+  parse_toks o "" [ftok; colon_tok; quoted w; eof] = PTree (qtree fs w) /\
+  exists s : string, render o2 (qtree fs w) = Ret (s, None) /\ PgModel.pg_read (PgModel.str s) = Some (qast fs w) /\
+    forall r : row, ssem r [] (qast fs w) = qsem r (qtree fs w).
+Proof. exact quoted_value_reaches_postgres. Qed.
+
+(* the same for a value written with escapes: es is any Literal token text that loses its backslashes to w (premises of
+   C08_escaped_value_tree) *)
+Theorem C08_escaped_value_reaches_postgres_verbatim : forall (o : oracle) (o2 : oracle2) (ftok : token) (fs es w : string),
+  is_term_tok ftok = true -> parse_literal o ftok = lit (VStr fs) ->
+  atoi es = None -> match parse_float o es with Some f => is_nan_or_inf o f = true | None => True end ->
+  contains_char "*"%char es = false -> contains_char "?"%char es = false -> remove_char "\"%char es = w ->
+  name_ok fs = true -> col_ok o2 fs = true -> lit_ok o2 (sqs w) = true ->
+  parse_toks o "" [ftok; colon_tok; word_tok es; eof] = PTree (qtree fs w) /\
+  exists s : string, render o2 (qtree fs w) = Ret (s, None) /\ PgModel.pg_read (PgModel.str s) = Some (qast fs w) /\
+    forall r : row, ssem r [] (qast fs w) = qsem r (qtree fs w).
+Proof. exact escaped_value_reaches_postgres. Qed.
+
+(* the parameterized renderer: the text holds a placeholder, w travels - verbatim - as the only parameter, PostgreSQL reads the
+   comparison of the column with parameter 1, true with w bound on exactly the rows of the query *)
+Theorem C08_value_travels_as_parameter_verbatim : forall (o2 : oracle2) (fs w : string),
+  String.eqb w "*" = false -> name_ok fs = true -> col_ok o2 fs = true -> valid_utf8 o2 "?" = true ->
+  exists s : string, render_param o2 (qtree fs w) = Ret (s, [VStr w], None) /\
+    PgModel.pg_read (number_placeholders (PgModel.str s)) = Some (past fs) /\
+    forall r : row, ssem r [RStr w] (past fs) = qsem r (qtree fs w).
+Proof. exact quoted_value_travels_as_parameter. Qed.
+
+(* the premises are met by a hostile value *)
+Example c08_hostile_value_meets_the_premises :
+  let w := "it's 100% \_ '; DROP TABLE t; -- /* x"%string in
+  contains_char """"%char w = false /\ name_ok "title" = true /\ col_ok SqlQueryText.o2_ex "title" = true /\
+  lit_ok SqlQueryText.o2_ex (sqs w) = true /\ String.eqb w "*" = false.
+Proof. vm_compute. repeat split; reflexivity. Qed.
+
+
+(* ---- from the query TEXT ----
+   the bytes  f:"w"  (f an ASCII word that is no keyword, w ANY byte string without a double quote) handed to ToPostgres: lexer,
+   parser, Validate, renderer, PostgreSQL scanner and grammar - the comparison of column f with the string constant w arrives,
+   true on exactly the rows of the query; handed to ToParameterizedPostgres: a placeholder in the text and w as the only parameter *)
+Theorem C08_quoted_text_to_rows :
+  forall (o : oracle) (o2 : oracle2) (cl : Lex.classes),
+  Lex.is_letter cl 34%N = false /\ Lex.is_digit cl 34%N = false ->
+  Lex.is_letter cl 58%N = false /\ Lex.is_digit cl 58%N = false ->
+  (forall r, Lex.is_space r = true -> Lex.is_alnum cl r = false) ->
+  forall (c0 : ascii) (f w : list ascii),
+  forallb (LexField.wordc cl) (c0 :: f) = true -> Forall (fun c => c <> """"%char) w -> Lex.word_type (c0 :: f) = TLiteral ->
+  let fs := string_of_list_ascii (c0 :: f) in let ws := string_of_list_ascii w in
+  parse_literal o {| typ := TLiteral; val := fs |} = lit (VStr fs) ->
+  name_ok fs = true -> col_ok o2 fs = true -> lit_ok o2 (sqs ws) = true ->
+  exists s : string,
+    Api.to_postgres o o2 cl "" (QuoteText.quoted_text (c0 :: f) w) = Ret (s, None) /\
+    PgModel.pg_read (PgModel.str s) = Some (qast fs ws) /\
+    forall r : row, ssem r [] (qast fs ws) = qsem r (qtree fs ws).
+Proof. exact QuoteText.to_postgres_on_quoted_value. Qed.
+
+Theorem C08_quoted_text_to_parameter :
+  forall (o : oracle) (o2 : oracle2) (cl : Lex.classes),
+  Lex.is_letter cl 34%N = false /\ Lex.is_digit cl 34%N = false ->
+  Lex.is_letter cl 58%N = false /\ Lex.is_digit cl 58%N = false ->
+  (forall r, Lex.is_space r = true -> Lex.is_alnum cl r = false) ->
+  forall (c0 : ascii) (f w : list ascii),
+  forallb (LexField.wordc cl) (c0 :: f) = true -> Forall (fun c => c <> """"%char) w -> Lex.word_type (c0 :: f) = TLiteral ->
+  let fs := string_of_list_ascii (c0 :: f) in let ws := string_of_list_ascii w in
+  parse_literal o {| typ := TLiteral; val := fs |} = lit (VStr fs) ->
+  String.eqb ws "*" = false -> name_ok fs = true -> col_ok o2 fs = true -> valid_utf8 o2 "?" = true ->
+  exists s : string,
+    Api.to_param_postgres o o2 cl "" (QuoteText.quoted_text (c0 :: f) w) = Ret (s, [VStr ws], None) /\
+    PgModel.pg_read (number_placeholders (PgModel.str s)) = Some (past fs) /\
+    forall r : row, ssem r [RStr ws] (past fs) = qsem r (qtree fs ws).
+Proof. exact QuoteText.to_param_postgres_on_quoted_value. Qed.
+
+(* the escaped spelling of an ASCII text w without backslash, star and question mark, as query text *)
+Theorem C08_escaped_text_to_rows :
+  forall (o : oracle) (o2 : oracle2) (cl : Lex.classes),
+  Lex.is_letter cl 34%N = false /\ Lex.is_digit cl 34%N = false ->
+  Lex.is_letter cl 58%N = false /\ Lex.is_digit cl 58%N = false ->
+  Lex.is_letter cl 92%N = false /\ Lex.is_digit cl 92%N = false ->
+  (forall r, Lex.is_space r = true -> Lex.is_alnum cl r = false) ->
+  forall (c0 : ascii) (f : list ascii) (d0 : ascii) (w : list ascii),
+  forallb (LexField.wordc cl) (c0 :: f) = true -> Lex.word_type (c0 :: f) = TLiteral ->
+  forallb LexEscape.asciib (d0 :: w) = true -> Lex.word_type (LexEscape.esc_b cl (d0 :: w)) = TLiteral ->
+  forallb (fun c => negb (Ascii.eqb c "\"%char)) (d0 :: w) = true ->
+  let fs := string_of_list_ascii (c0 :: f) in let ws := string_of_list_ascii (d0 :: w) in
+  let es := string_of_list_ascii (LexEscape.esc_b cl (d0 :: w)) in
+  contains_char "*"%char ws = false -> contains_char "?"%char ws = false ->
+  atoi es = None -> match parse_float o es with Some x => is_nan_or_inf o x = true | None => True end ->
+  parse_literal o {| typ := TLiteral; val := fs |} = lit (VStr fs) ->
+  name_ok fs = true -> col_ok o2 fs = true -> lit_ok o2 (sqs ws) = true ->
+  exists s : string,
+    Api.to_postgres o o2 cl "" (QuoteText.escaped_text cl (c0 :: f) (d0 :: w)) = Ret (s, None) /\
+    PgModel.pg_read (PgModel.str s) = Some (qast fs ws) /\
+    forall r : row, ssem r [] (qast fs ws) = qsem r (qtree fs ws).
+Proof. exact QuoteText.to_postgres_on_escaped_value. Qed.
+
+(* the premises of the text-level theorems are met: ASCII classifier, field title, a hostile value *)
+Example c08_text_premises_are_met :
+  let cl := LexWs.cl_ascii in let o := SqlQueryText.o_ex in let o2 := SqlQueryText.o2_ex in
+  let f := list_ascii_of_string "title" in let w := list_ascii_of_string "it's 100% \_ '; DROP TABLE t; -- /* x" in
+  let w2 := list_ascii_of_string "a b:c""d(e) OR" in
+  (Lex.is_letter cl 34%N = false /\ Lex.is_digit cl 34%N = false) /\ (Lex.is_letter cl 58%N = false /\ Lex.is_digit cl 58%N = false) /\
+  (Lex.is_letter cl 92%N = false /\ Lex.is_digit cl 92%N = false) /\
+  forallb (LexField.wordc cl) f = true /\ Lex.word_type f = TLiteral /\ forallb (fun c => negb (Ascii.eqb c """"%char)) w = true /\
+  parse_literal o {| typ := TLiteral; val := string_of_list_ascii f |} = lit (VStr (string_of_list_ascii f)) /\
+  name_ok (string_of_list_ascii f) = true /\ col_ok o2 (string_of_list_ascii f) = true /\ lit_ok o2 (sqs (string_of_list_ascii w)) = true /\
+  forallb LexEscape.asciib w2 = true /\ Lex.word_type (LexEscape.esc_b cl w2) = TLiteral /\
+  forallb (fun c => negb (Ascii.eqb c "\"%char)) w2 = true /\
+  contains_char "*"%char (string_of_list_ascii w2) = false /\ contains_char "?"%char (string_of_list_ascii w2) = false /\
+  atoi (string_of_list_ascii (LexEscape.esc_b cl w2)) = None /\ parse_float o (string_of_list_ascii (LexEscape.esc_b cl w2)) = None.
+Proof. vm_compute. repeat split; reflexivity. Qed.
+
 Print Assumptions C08_quoted_value_is_one_token.
 Print Assumptions C08_escaped_value_is_one_token.
 Print Assumptions C08_escaped_value_tree.
@@ -99,3 +221,9 @@ Print Assumptions C08_quoted_value_tree.
 Print Assumptions C08_quoted_value_inline_sql.
 Print Assumptions C08_quoted_value_parameter.
 Print Assumptions C08_sql_constant_decodes_to_the_value.
+Print Assumptions C08_quoted_value_reaches_postgres_verbatim.
+Print Assumptions C08_escaped_value_reaches_postgres_verbatim.
+Print Assumptions C08_value_travels_as_parameter_verbatim.
+Print Assumptions C08_quoted_text_to_rows.
+Print Assumptions C08_quoted_text_to_parameter.
+Print Assumptions C08_escaped_text_to_rows.
